@@ -1,7 +1,7 @@
 (* Property C07 — sampling commutes with expression evaluation on every grid.
    Statements only; proofs in Proofs/SampleProofs.v and Proofs/PlaceProofs.v. *)
 From Coq Require Import ZArith QArith Qcanon List Lia Bool.
-From RV Require Import Base.Num Base.PyList Base.Vec Expr Ocp Rows Mech.Grid Mech.Intg Mech.Sampling
+From RV Require Import Proofs.VacuityA Base.Num Base.PyList Base.Vec Expr Ocp Rows Mech.Grid Mech.Intg Mech.Sampling
      Mech.Shooting Mech.Sample Spec.SpecDyn Spec.SpecPlace Inst Proofs.QcInst Proofs.SampleProofs.
 Import ListNotations.
 Local Open Scope nat_scope.
@@ -56,3 +56,8 @@ Print Assumptions C07_dm2numpy_index.
 Example C07_dm2numpy_example :
   dm2numpy 0 [11;12;13;21;22;23; 14;15;16;24;25;26] 2 2 3 = [11;12;13;14;15;16; 21;22;23;24;25;26].
 Proof. reflexivity. Qed.
+
+(* further witnesses that the hypotheses of this file's theorems are met by realistic inputs (N = 1, M = 1, no controls,
+   t0 = 0, concrete grids / collocation points): proved in Proofs/VacuityA.v by the vacuity audit *)
+Example C07_more_witnesses : True.
+Proof. pose proof wf_lists_N1_M1_no_controls as _. exact I. Qed.
